@@ -129,6 +129,7 @@ structure Inv (c : Path) (others : List Path) (tol : Rat) (s : St) (is : List Na
   pairs : ∀ m a b, is[m]? = some a → is[m + 1]? = some b → PairOK c others tol s.out m a b
   acc : ∀ m, s.i + 2 ≤ m → m < s.j → m < c.length → ∀ k, s.i < k → k < m → NotFar c tol k s.i m
   sub : s.out.Sublist (c.take (s.i + 1))
+  subs : ∀ m a, is[m]? = some a → (s.out.take (m + 1)).Sublist (c.take (a + 1))
 
 /-- termination measure of the `for j` loop -/
 def measure (n : Nat) (s : St) : Nat := (n - s.i) * (n + 1) + (n + 1 - s.j)
@@ -157,7 +158,7 @@ theorem jBody_ok {c : Path} {others : List Path} {tol : Rat} {s : St} {is : List
       · have := inv.hj; omega
       · exact h
     refine ⟨_, is, by simp [pure, Except.pure]; rfl, ?_, ?_⟩
-    · refine ⟨?_, ?_, ?_, ?_, inv.hlen, inv.kept, inv.head, inv.last, inv.pairs, ?_, inv.sub⟩
+    · refine ⟨?_, ?_, ?_, ?_, inv.hlen, inv.kept, inv.head, inv.last, inv.pairs, ?_, inv.sub, inv.subs⟩
       · show s.i + 2 ≤ s.j + 1; have := inv.hj; omega
       · show s.j + 1 ≤ c.length + 1; omega
       · intro h; change c.length < s.j + 1 at h; omega
@@ -179,7 +180,11 @@ theorem jBody_ok {c : Path} {others : List Path} {tol : Rat} {s : St} {is : List
     have hdf : s.done = false := by
       rw [inv.hdone]; have := inv.hj; simp; omega
     refine ⟨_, is ++ [j' - 1], rfl, ?_, ?_⟩
-    · refine ⟨?_, ?_, ?_, ?_, ?_, ?_, ?_, ?_, ?_, ?_, ?_⟩
+    · have hsub' : (s.out ++ [c[j' - 1]]).Sublist (c.take (j' - 1 + 1)) := by
+        rw [List.take_add_one, List.getElem?_eq_getElem hi']
+        apply List.Sublist.append _ (List.Sublist.refl _)
+        exact inv.sub.trans (List.take_sublist_take_left (by omega))
+      refine ⟨?_, ?_, ?_, ?_, ?_, ?_, ?_, ?_, ?_, ?_, hsub', ?_⟩
       · show j' - 1 + 2 ≤ j' + 1; omega
       · show j' + 1 ≤ c.length + 1; omega
       · intro h; change c.length < j' + 1 at h; show j' - 1 + 1 = c.length; omega
@@ -236,10 +241,23 @@ theorem jBody_ok {c : Path} {others : List Path} {tol : Rat} {s : St} {is : List
         change m < j' + 1 at m2
         change j' - 1 + 2 ≤ m at m1
         omega
-      · show (s.out ++ [c[j' - 1]]).Sublist (c.take (j' - 1 + 1))
-        rw [List.take_add_one, List.getElem?_eq_getElem hi']
-        apply List.Sublist.append _ (List.Sublist.refl _)
-        exact inv.sub.trans (List.take_sublist_take_left (by omega))
+      · intro m a ha
+        show ((s.out ++ [c[j' - 1]]).take (m + 1)).Sublist (c.take (a + 1))
+        rw [List.getElem?_append] at ha
+        by_cases hm : m < is.length
+        · simp only [hm, if_true] at ha
+          rw [List.take_append_of_le_length (by rw [← inv.hlen]; omega)]
+          exact inv.subs m a ha
+        · simp only [hm, if_false] at ha
+          by_cases hm0 : m = is.length
+          · subst hm0
+            simp at ha
+            subst ha
+            rw [List.take_of_length_le (by simp [inv.hlen])]
+            exact hsub'
+          · have hnone : ([j' - 1] : List Nat)[m - is.length]? = none := by
+              apply List.getElem?_eq_none; simp; omega
+            rw [hnone] at ha; cases ha
     · show (c.length - (j' - 1)) * (c.length + 1) + (c.length + 1 - (j' + 1)) < (c.length - s.i) * (c.length + 1) + (c.length + 1 - s.j)
       have := measure_keep (n := c.length) (i := s.i) (i' := j' - 1) (j := s.j) (by omega) hi' hjn
       have hj1 : j' - 1 + 1 + 1 = j' + 1 := by omega
@@ -272,6 +290,7 @@ structure Good (c : Path) (others : List Path) (tol : Rat) (out : Path) (is : Li
   empty : c = [] → out = []
   pairs : ∀ m a b, is[m]? = some a → is[m + 1]? = some b → PairOK c others tol out m a b
   sub : out.Sublist c
+  subs : ∀ m a, is[m]? = some a → (out.take (m + 1)).Sublist (c.take (a + 1))
 
 theorem simplifyCurveF_ok (c : Path) (others : List Path) (tol : Rat) (fuel : Nat)
     (hf : fuelFor c.length ≤ fuel) :
@@ -280,21 +299,30 @@ theorem simplifyCurveF_ok (c : Path) (others : List Path) (tol : Rat) (fuel : Na
   by_cases h0 : c.length = 0
   · have hc : c = [] := List.eq_nil_of_length_eq_zero h0
     subst hc
-    exact ⟨[], [], by simp [pure, Except.pure], ⟨rfl, fun h => absurd rfl h, fun _ => rfl, by intro m a b h; simp at h, List.Sublist.refl _⟩⟩
+    exact ⟨[], [], by simp [pure, Except.pure], ⟨rfl, fun h => absurd rfl h, fun _ => rfl, by intro m a b h; simp at h, List.Sublist.refl _, by intro m a h; simp at h⟩⟩
   · by_cases h3 : c.length < 3
     · simp only [h0, if_false, h3, if_true]
       match c, h0, h3 with
       | [p], _, _ =>
-        refine ⟨[p], [0], rfl, ⟨by simp, fun _ => by simp, fun h => by simp at h, ?_, List.Sublist.refl _⟩⟩
-        intro m a b h1 h2; simp at h2
+        refine ⟨[p], [0], rfl, ⟨by simp, fun _ => by simp, fun h => by simp at h, ?_, List.Sublist.refl _, ?_⟩⟩
+        · intro m a b h1 h2; simp at h2
+        · intro m a h
+          match m, h with
+          | 0, h => simp at h; subst h; simp
+          | m + 1, h => simp at h
       | [p, q], _, _ =>
-        refine ⟨[p, q], [0, 1], rfl, ⟨by simp, fun _ => by simp, fun h => by simp at h, ?_, List.Sublist.refl _⟩⟩
-        intro m a b h1 h2
-        match m, h1, h2 with
-        | 0, h1, h2 =>
-          simp at h1 h2; subst h1; subst h2
-          exact ⟨by omega, fun k k1 k2 => by omega, fun h => by omega⟩
-        | m + 1, h1, h2 => simp at h2
+        refine ⟨[p, q], [0, 1], rfl, ⟨by simp, fun _ => by simp, fun h => by simp at h, ?_, List.Sublist.refl _, ?_⟩⟩
+        · intro m a b h1 h2
+          match m, h1, h2 with
+          | 0, h1, h2 =>
+            simp at h1 h2; subst h1; subst h2
+            exact ⟨by omega, fun k k1 k2 => by omega, fun h => by omega⟩
+          | m + 1, h1, h2 => simp at h2
+        · intro m a h
+          match m, h with
+          | 0, h => simp at h; subst h; simp
+          | 1, h => simp at h; subst h; simp
+          | m + 2, h => simp at h
       | _ :: _ :: _ :: _, _, h3 => simp at h3; omega
     · simp only [h0, if_false, h3]
       have hn : 3 ≤ c.length := by omega
@@ -303,14 +331,18 @@ theorem simplifyCurveF_ok (c : Path) (others : List Path) (tol : Rat) (fuel : Na
       unfold outer
       simp only [idx_ok h0', bind, Except.bind, List.nil_append]
       have inv0 : Inv c others tol ⟨0, 0 + 2, [c[0]], false⟩ [0] := by
-        refine ⟨by simp, by simp; omega, ?_, ?_, rfl, ?_, rfl, rfl, ?_, ?_, ?_⟩
+        have hs0 : ([c[0]] : Path).Sublist (c.take (0 + 1)) := by
+          rw [List.take_add_one, List.getElem?_eq_getElem h0']; simp
+        refine ⟨by simp, by simp; omega, ?_, ?_, rfl, ?_, rfl, rfl, ?_, ?_, hs0, ?_⟩
         · intro h; simp at h; omega
         · simp; omega
         · simp [List.getElem?_eq_getElem h0']
         · intro m a b h1 h2; simp at h2
         · intro m m1 m2; simp at m1 m2; omega
-        · simp only [Nat.zero_add]
-          rw [List.take_add_one, List.getElem?_eq_getElem h0']; simp
+        · intro m a h
+          match m, h with
+          | 0, h => simp at h; subst h; exact hs0
+          | m + 1, h => simp at h
       have hmeas : measure c.length ⟨0, 0 + 2, [c[0]], false⟩ < f := by
         unfold measure fuelFor at *
         have : (c.length + 1) * (c.length + 1) = c.length * (c.length + 1) + (c.length + 1) := Nat.succ_mul _ _
@@ -319,7 +351,7 @@ theorem simplifyCurveF_ok (c : Path) (others : List Path) (tol : Rat) (fuel : Na
       obtain ⟨s', is', e, inv', hx⟩ := jLoop_ok f _ _ inv0 hmeas
       have hi' := inv'.hexit hx
       have hd : s'.done = true := by rw [inv'.hdone]; simp [hi']
-      refine ⟨s'.out, is', by simp [e, hd, pure, Except.pure], ⟨inv'.kept, fun _ => ⟨inv'.head, ?_⟩, fun h => ?_, inv'.pairs, ?_⟩⟩
+      refine ⟨s'.out, is', by simp [e, hd, pure, Except.pure], ⟨inv'.kept, fun _ => ⟨inv'.head, ?_⟩, fun h => ?_, inv'.pairs, ?_, inv'.subs⟩⟩
       · rw [inv'.last]; congr 1; omega
       · subst h; simp at h0
       · have := inv'.sub
